@@ -31,6 +31,15 @@ theorem accounting_matches_source :
     KV.Gen.Group.closeWaitTest = (">", "0") ∧ KV.Gen.Group.startLastRoutineTest = ("==", "0") ∧
     KV.Gen.Group.startRoutinesIncDec = (1, 1) := by decide
 
+/-- `NewReader` feeds every group option of the ReaderConfig into the field of the same name of the ConsumerGroupConfig
+(`ID ← GroupID`, `Topics ← getTopics()`), and all of them are fed (re-read from reader.go on every run). -/
+theorem reader_options_pass_through :
+    KV.Gen.Group.readerGroupOptions.all
+      (fun p => p.1 == p.2 || p == ("ID", "GroupID") || p == ("Topics", "getTopics()")) = true ∧
+    ["Brokers", "Dialer", "GroupBalancers", "HeartbeatInterval", "ID", "JoinGroupBackoff", "PartitionWatchInterval",
+     "RebalanceTimeout", "RetentionTime", "SessionTimeout", "StartOffset", "Topics", "WatchPartitionChanges"].all
+      (fun f => KV.Gen.Group.readerGroupOptions.any (fun p => p.1 == f)) = true := by decide
+
 /-! ### joined_iff -/
 
 /-- `joined` is closed exactly when the generation has ended, no accounted function is left and at least one was
